@@ -1,5 +1,7 @@
 import FalconModel.UriEncode
 import FalconModel.Utf8
+import FalconModel.Utf8Enc
+import FalconModel.UriStr
 open Uri
 def hv (c : Char) : Nat := if c.isDigit then c.toNat - 48 else c.toNat - 87
 def fromHex (s : String) : List UInt8 :=
@@ -13,6 +15,17 @@ def hexOfByte (b : UInt8) : String :=
 def toHex (bs : List UInt8) : String := if bs.isEmpty then "-" else String.join (bs.map hexOfByte)
 def showCps (s : List Nat) : String := if s.isEmpty then "-" else ".".intercalate (s.map toString)
 
+/-- code points "97.233.8364" ("-" = empty string) -/
+def parseCps (s : String) : List Nat := if s == "-" then [] else (s.splitOn ".").map String.toNat!
+def encHex (cps : List Nat) : String :=
+  match U8.encode? cps with
+  | some bs => toHex bs
+  | none => "EXC:UnicodeEncodeError"
+def guarded (cps : List Nat) (f : List Nat → List Nat) : String :=
+  match U8.encode? cps with
+  | some _ => showCps (f cps)
+  | none => "EXC:UnicodeEncodeError"
+
 def step (line : String) : String :=
   match line.trimAscii.toString.splitOn " " with
   | ["tables"] => toHex unreservedTab ++ " " ++ toHex delimTab
@@ -22,6 +35,19 @@ def step (line : String) : String :=
   | ["enc", "1", h] => toHex (encodeValue (fromHex h))
   | ["enc", "2", h] => toHex (encodeCheckEscaped (fromHex h))
   | ["enc", "3", h] => toHex (encodeValueCheckEscaped (fromHex h))
+  -- str level: `str.encode()`, encode-then-replace-decode, and the str-level transcription of decode / encode / encode_value
+  | ["u8enc", c] => encHex (parseCps c)
+  | ["roundtrip", c] => guarded (parseCps c) (fun s => U8.decodeReplace (U8.encode s))
+  | ["sdecode", p, c] => guarded (parseCps c) (Us.decode (p == "1"))
+  | ["senc", "0", c] => guarded (parseCps c) Us.encode
+  | ["senc", "1", c] => guarded (parseCps c) Us.encodeValue
+  | ["srt", "0", p, c] => guarded (parseCps c) (fun s => Us.decode (p == "1") (Us.encode s))
+  | ["srt", "1", p, c] => guarded (parseCps c) (fun s => Us.decode (p == "1") (Us.encodeValue s))
+  | ["shost", c] =>
+    let (n, p) := Us.parseHost (parseCps c)
+    showCps n ++ " " ++ (match p with
+      | none => "default"
+      | some t => match Us.natOfDigits t with | some k => toString k | none => "nonnumeric")
   | ["host", h] =>
     let (n, p) := parseHost (fromHex h)
     toHex n ++ " " ++ (match p with
